@@ -25,7 +25,28 @@ EXTRA4 = (" This is the fourth round against a verifier that generates random in
           "copy / deepcopy / pickle round trips of library objects, spawn vs fork workers, persistent workers across epochs), user SUBCLASSES of "
           "library base classes that override one documented hook, and rarely combined but documented options. The change must still be a "
           "realistic slip and must break the stated property, not merely something adjacent to it.")
-extra = "" if rnd == 1 else EXTRA4 if rnd >= 4 else EXTRA3 if rnd >= 3 else " Avoid the most obvious one-token slip in the main function of the most relevant file: look instead at base classes, helper/utility functions and static helpers shared by these code paths, rarely used constructor options and their defaults (falsy values such as 0, None handling), state that is cached or carried across calls or across instances, the order of two operations, boundary values (empty, one element, exactly equal), and the interplay of two files."
+def _extra5(pid):
+    import importlib.util
+    spec = importlib.util.spec_from_file_location("gm", "/verif/tools/gen_manifest.py")
+    gm = importlib.util.module_from_spec(spec)
+    spec.loader.exec_module(gm)
+    covered = gm.REG[pid][2] + gm.ADDENDA.get(pid, "")
+    return (" This is the fifth round against a verifier that generates random inputs, configurations and call sequences with strong oracles. For "
+            "this property it already explores: " + covered + " In general it also already covers: single-site slips, falsy defaults, stale "
+            "caches, lost forwarding, in-place mutation of arguments or of the wrapped dataset's storage, narrow dtypes, numpy / tensor "
+            "scalars as arguments, positional vs keyword construction, copy / deepcopy / pickle clones, shared objects, second passes and "
+            "two live iterators over one object, launcher environment variables, torch default dtype, user subclasses overriding a public "
+            "hook, real worker processes and real process groups. Find something OUTSIDE all of that. Ideas: an alternate documented way of "
+            "reaching the same behaviour that the list above does not mention; degenerate-but-legal sizes or values (empty / one element / "
+            "all equal / probability exactly 0 or 1 / extreme alpha) in combination with a second option; an unusual but legal ORDER of public "
+            "method calls (re-configuring after use, calling a hook twice, using an object after dispose / clear); state that accumulates so "
+            "that only the third or later call / epoch / batch differs; an input the unchanged library refuses with an exception that your "
+            "change now silently accepts with a wrong result; interaction with a torch / numpy feature (views, non-contiguous tensors, "
+            "requires_grad, channels-last, read-only arrays, negative strides). The change must be a realistic slip, must break the stated "
+            "property within its stated 'meant to hold for' range, and must respect the library's own documented contracts.")
+
+
+extra = "" if rnd == 1 else _extra5(pid) if rnd >= 5 else EXTRA4 if rnd >= 4 else EXTRA3 if rnd >= 3 else " Avoid the most obvious one-token slip in the main function of the most relevant file: look instead at base classes, helper/utility functions and static helpers shared by these code paths, rarely used constructor options and their defaults (falsy values such as 0, None handling), state that is cached or carried across calls or across instances, the order of two operations, boundary values (empty, one element, exactly equal), and the interplay of two files."
 print(f"""You are helping to evaluate a verification effort by playing the role of a developer who introduces a subtle regression.
 
 Workspace: a scratch git worktree of the Python library BenediktAlkin/KappaData (PyTorch dataset utilities, package `kappadata`) at {wt}. Work ONLY inside {wt}. Never modify or read anything under /repo or /verif. Run Python as `/venv/bin/python` with your current directory set to {wt} (so that the worktree's copy of `kappadata` is the one imported; verify once with `cd {wt} && /venv/bin/python -c "import kappadata; print(kappadata.__file__)"` - it must print a path under {wt}; if it does not, prefix commands with `PYTHONPATH={wt}`). There is no network.
